@@ -274,6 +274,9 @@ class Run:
             jsonschema.validate(json.load(open(tmp)), schema)
         except FileNotFoundError:
             pass
+        except Exception as e:        # e.g. nothing could be explored at all: say so, never crash without a verdict line
+            print('HARNESS-ERROR: evidence does not satisfy its schema: %s' % str(e).splitlines()[0])
+            self.harness_errors.append({'err': 'evidence invalid: %s' % str(e)[:200]})
         os.replace(tmp, path)
         print('%s tier=%s seed=%d evaluations=%d distinct_nontrivial=%d states=%d transitions=%d outcomes=%d '
               'exhaustive=%s wall=%.1fs' % (self.prop, self.tier, self.seed, self.evaluations, len(self.distinct),
